@@ -91,16 +91,38 @@ package app
 //@ func (*App).showTasks
 //@ props C19 C20
 //@ requires spokfile != nil
-//@ ensures true
-//@ loop 0: invariant true
-//@ loop 1: invariant 0 <= $i && $i <= len(names)
+//@ modifies listed
+//@ at entry: ghost listed = noStrs()
+//@ at call Fprint#0: ghost listed = snoc(listed, name)
+//@ ensures [C20,every-defined-task-is-listed] forall t string :: {dom(spokfile.Tasks, t)} dom(spokfile.Tasks, t) ==> contains(listed, t)
+//@ ensures [C20,only-defined-tasks-are-listed] forall i int :: {listed[i]} 0 <= i && i < len(listed) ==> dom(spokfile.Tasks, listed[i])
+//@ ensures [C20,listed-once-and-sorted-by-name] distinctStrs(listed) && sortedStrs(listed)
+//@ loop 0: invariant len(listed) == 0 && distinctStrs(names)
+//@ loop 0: invariant forall t string :: {$seen[t]} $seen[t] ==> contains(names, t)
+//@ loop 0: invariant forall i int :: {names[i]} 0 <= i && i < len(names) ==> $seen[names[i]] && dom(spokfile.Tasks, names[i])
+//@ loop 1: invariant 0 <= $i && $i <= len(names) && len(listed) == $i
+//@ loop 1: invariant forall k int :: {listed[k]} {names[k]} 0 <= k && k < $i ==> listed[k] == names[k]
+//@ loop 1: invariant distinctStrs(names) && sortedStrs(names)
+//@ loop 1: invariant forall t string :: {dom(spokfile.Tasks, t)} dom(spokfile.Tasks, t) ==> contains(names, t)
+//@ loop 1: invariant forall i int :: {names[i]} 0 <= i && i < len(names) ==> dom(spokfile.Tasks, names[i])
 
 //@ func (*App).showVariables
 //@ props C19 C20
 //@ requires spokfile != nil
-//@ ensures true
-//@ loop 0: invariant true
-//@ loop 1: invariant 0 <= $i && $i <= len(names)
+//@ modifies listed
+//@ at entry: ghost listed = noStrs()
+//@ at call Fprint#0: ghost listed = snoc(listed, name)
+//@ ensures [C20,every-variable-is-listed] forall t string :: {dom(spokfile.Vars, t)} dom(spokfile.Vars, t) ==> contains(listed, t)
+//@ ensures [C20,only-variables-are-listed] forall i int :: {listed[i]} 0 <= i && i < len(listed) ==> dom(spokfile.Vars, listed[i])
+//@ ensures [C20,listed-once-and-sorted-by-name] distinctStrs(listed) && sortedStrs(listed)
+//@ loop 0: invariant len(listed) == 0 && distinctStrs(names)
+//@ loop 0: invariant forall t string :: {$seen[t]} $seen[t] ==> contains(names, t)
+//@ loop 0: invariant forall i int :: {names[i]} 0 <= i && i < len(names) ==> $seen[names[i]] && dom(spokfile.Vars, names[i])
+//@ loop 1: invariant 0 <= $i && $i <= len(names) && len(listed) == $i
+//@ loop 1: invariant forall k int :: {listed[k]} {names[k]} 0 <= k && k < $i ==> listed[k] == names[k]
+//@ loop 1: invariant distinctStrs(names) && sortedStrs(names)
+//@ loop 1: invariant forall t string :: {dom(spokfile.Vars, t)} dom(spokfile.Vars, t) ==> contains(names, t)
+//@ loop 1: invariant forall i int :: {names[i]} 0 <= i && i < len(names) ==> dom(spokfile.Vars, names[i])
 
 // no task names given: the task called default runs when there is one, otherwise the listing
 //@ func (*App).handleDefault
